@@ -76,3 +76,9 @@ CHECKS["C17"] = (
     "Held on the fault points enumerated: for every listed script (all scenarios in the thorough tier) every single (side, recv|send, call index, fault kind) point is run, plus fault pairs, closeSocket/ignoreAbruptClose variants, fatal/warning/close_notify alerts at handshake and data points, orderly/simultaneous/EOF closes; the interrupted call raises a socket or abrupt-close error (or the peer's real alert), the connection is closed, no resumable session or completed handshake survives a mid-handshake fault, later read/write behave as closed, orderly close keeps the session resumable.",
     "Faults are injected at the socket API boundary; resumability after a data-phase transport fault is recorded, not judged.",
     "DESIGN.md section 3, C17")
+CHECKS["C14"] = (
+    "exploration",
+    "runtime monitoring: metamorphic comparison of each operation script's abstract outcome under constrained transports / schedules / calling styles against its unconstrained baseline, with bit-identical replays",
+    "Held on the executions observed: every scenario script (and failing scripts) re-run with recv sizes 1/2/3/5/random, partial sends, injected would-blocks on reads/writes/both, four generator schedules, handshake flights re-fragmented to 1-4-byte/random records or coalesced, sender recordSize 1/7/64, AsyncStateMachine driving, and blocking calls from two threads over socketpair(); data delivered, negotiated parameters and secrets, resumption flag and exception/alert equal the baseline's. Known finding F11 (faithful non-blocking sendall) is reported.",
+    "Same-seed DRBG and virtual clock make baseline and variants comparable down to the secrets; sendall of the scripted socket is blocking-equivalent in the main exploration.",
+    "DESIGN.md section 3, C14")
